@@ -17,6 +17,7 @@ container is started by its own `treadmill run` process).
 The few lines of `_run.run` between "put the network request" and "call
 _unshare_network" are transcribed in Node.start (run() itself execs s6-svscan).
 """
+import errno
 import ipaddress
 import itertools
 import json
@@ -248,7 +249,53 @@ class Node:
         return self._guard(self._start, c, raw, seed)
 
     def finish(self, c):
-        return self._guard(self._finish, c)[0]
+        res = self._guard(self._finish, c)[0]
+        self.pump()         # the network service handles what the finish asked of it
+        return res
+
+    def finish_fail(self, c, k):
+        """One finish attempt in which the k-th side-effecting call (an `ipset`
+        command, the unlink of a rule file or endpoint spec, the release of the
+        network resource) fails once with an I/O style error.  Returns
+        (res, faulted): faulted is False when the attempt made fewer than k such
+        calls (then it simply was a finish)."""
+        from treadmill import iptables, subproc
+        from treadmill.services import _base_service
+        st = dict(n=0, hit=False)
+        watched = (os.path.realpath(self.tm_env.rules_dir), os.path.realpath(self.tm_env.endpoints_dir))
+
+        def tick(make_exc):
+            st['n'] += 1
+            if st['n'] == k and not st['hit']:
+                st['hit'] = True
+                raise make_exc()
+        fake = self.ipset
+        real_unlink = os.unlink
+        real_delete = _base_service.ResourceServiceClient.delete
+
+        def ipset(*a, **kw):
+            tick(lambda: subproc.CalledProcessError(1, ['ipset'] + list(a)))
+            return fake(*a, **kw)
+
+        def unlink(path, *a, **kw):
+            if isinstance(path, (str, bytes)) and \
+                    os.path.realpath(os.path.dirname(os.fsdecode(path))) in watched:
+                tick(lambda: OSError(errno.EIO, 'Input/output error', os.fsdecode(path)))
+            return real_unlink(path, *a, **kw)
+
+        def delete(client, rsrc_id):
+            # only the release of the NETWORK resource is part of _cleanup_network
+            if client._serviceinst is self.tm_env.svc_network:      # pylint: disable=W0212
+                tick(lambda: OSError(errno.EIO, 'Input/output error', rsrc_id))
+            return real_delete(client, rsrc_id)
+        with mock.patch.object(iptables, '_ipset', ipset), \
+                mock.patch.object(os, 'unlink', unlink), \
+                mock.patch.object(_base_service.ResourceServiceClient, 'delete', delete):
+            res = self._guard(self._finish, c)[0]
+        # the fault belongs to the finish, not to the network service: the service
+        # handles whatever the attempt asked of it after the hooks are gone
+        self.pump()
+        return res, st['hit']
 
     def _start(self, c, raw, seed):
         from treadmill import appcfg, fs, runtime
@@ -309,7 +356,6 @@ class Node:
         app = runtime.load_app_safe(unique_name, data_dir)
         if app:
             _finish._cleanup(self.tm_env, data_dir, app)     # pylint: disable=W0212
-        self.pump()
         return 'ok', {}
 
     def close(self):
@@ -359,6 +405,12 @@ def replay(history, containers=('c1', 'c2', 'c3'), seed=1):
                     res, rm = node.start(step[1], step[2], seed * 1000 + k)
                     lines.append(dict(ev='Start', c=step[1], res=res, exc=node.excname,
                                       raw=step[2], rm=rm, post=node.project()))
+                elif step[0] == 'FinishFail':
+                    res, hit = node.finish_fail(step[1], int(step[2]))
+                    # no call to fail (fewer than k): it simply was a finish
+                    lines.append(dict(ev='FinishFail' if hit else 'Finish', c=step[1], res=res,
+                                      exc=node.excname, k=int(step[2]), raw={}, rm={},
+                                      post=node.project()))
                 else:
                     res = node.finish(step[1])
                     lines.append(dict(ev='Finish', c=step[1], res=res, exc=node.excname,
@@ -387,7 +439,7 @@ def _tlav(v):
     return _tla(v)
 
 
-def mc_files(containers, spaces, max_finish=2, defects=(), tag='',
+def mc_files(containers, spaces, max_finish=2, max_fail=1, defects=(), tag='',
              invariants=('InvClauses', 'InvState', 'InvAllGone')):
     """spaces: container -> list of raw manifests."""
     mod = 'MC_NetReg%s' % tag
@@ -408,7 +460,8 @@ def mc_files(containers, spaces, max_finish=2, defects=(), tag='',
     cfg = ['INIT Init', 'NEXT Next', 'CHECK_DEADLOCK FALSE', 'CONSTANTS',
            ' Containers <- McContainers', ' Pool <- McPool', ' ExtIp = "%s"' % EXT_IP,
            ' RawSpace <- McRawSpace', ' RealPorts <- McRealPorts', ' Pids <- McPids',
-           ' Dns <- McDns', ' Defects <- McDefects', ' MaxFinish = %d' % max_finish]
+           ' Dns <- McDns', ' Defects <- McDefects', ' MaxFinish = %d' % max_finish,
+           ' MaxFail = %d' % max_fail]
     cfg += ['INVARIANT %s' % i for i in invariants]
     return mod, mod + '.cfg', {mod + '.tla': text, mod + '.cfg': '\n'.join(cfg) + '\n'}
 
@@ -425,23 +478,47 @@ def history_of(labels):
             out.append(('Start', str(args[0]), raw))
         elif name == 'Finish':
             out.append(('Finish', str(args[0])))
+        elif name == 'FinishFail':
+            # the model aborts after j of its six groups; the harness fails the
+            # (2j+1)-th side-effecting call of the real attempt
+            out.append(('FinishFail', str(args[0]), 2 * int(args[1]) + 1))
         else:
             raise tlc.MachineryError('unexpected label %r' % (name,))
     return out
 
 
-def gen_random(rng, containers=('c1', 'c2', 'c3')):
+def gen_random(rng, containers=('c1', 'c2', 'c3'), fail=0.4):
     """Two or three containers, each started once and finished once or twice, in a
     random interleaving; containers may be instances of the same application."""
     cs = list(containers[:rng.choice([2, 2, 3])])
     apps = {c: rng.choice(['a1', 'a1', 'a2']) for c in cs}
-    todo = {c: ['Start'] + ['Finish'] * rng.choice([1, 2, 2]) for c in cs}
+    todo = {c: ['Start'] + (['FinishFail'] if rng.random() < fail else []) +
+               ['Finish'] * rng.choice([1, 2, 2]) for c in cs}
     hist = []
     while any(todo.values()):
         c = rng.choice([x for x in cs if todo[x]])
         ev = todo[c].pop(0)
-        hist.append(('Start', c, gen_raw(rng, apps[c])) if ev == 'Start' else ('Finish', c))
+        if ev == 'Start':
+            hist.append(('Start', c, gen_raw(rng, apps[c])))
+        elif ev == 'FinishFail':
+            hist.append(('FinishFail', c, rng.randrange(1, 16)))
+        else:
+            hist.append(('Finish', c))
     return hist
+
+
+def every_fault(base):
+    """For a history without faults: one history per k = 1, 2, ... with
+    FinishFail(c, k) put before the first finish of each container in turn."""
+    out = []
+    firsts = {}
+    for idx, step in enumerate(base):
+        if step[0] == 'Finish' and step[1] not in firsts:
+            firsts[step[1]] = idx
+    for c, idx in firsts.items():
+        for k in range(1, 31):
+            out.append(base[:idx] + [('FinishFail', c, k)] + base[idx:])
+    return out
 
 
 def validate(traces, timeout=900, cfg='NetRegTrace.cfg'):
